@@ -1,5 +1,330 @@
 package main
 
-func runSeq()    {}
-func runStress() {}
-func runChild()  {}
+import (
+	"bytes"
+	"encoding/json"
+	"fmt"
+	"os"
+	"os/exec"
+	"runtime"
+	"strings"
+	"sync"
+	"sync/atomic"
+	"time"
+
+	"verif/harness/vrun"
+
+	"github.com/php-any/origami/data"
+	"github.com/php-any/origami/node"
+	"github.com/php-any/origami/parser"
+	ort "github.com/php-any/origami/runtime"
+)
+
+// one registry call
+//
+//	{"op":"add","kind":"c|i|f","name":"A","file":3} {"op":"get","kind":"c","name":"A"}
+//	{"op":"setconst","name":"K","val":5} {"op":"getconst","name":"K"} {"op":"global","name":"g"}
+//	{"op":"setfile","name":"/x/a.php"} {"op":"getfile","name":"/x/a.php"}
+//	{"op":"depth"}  EnterCall+LeaveCall   {"op":"handler"} Set/GetExceptionHandler   (scalar state, stress only)
+type Op struct {
+	Op   string `json:"op"`
+	Kind string `json:"kind,omitempty"`
+	Name string `json:"name,omitempty"`
+	File int    `json:"file,omitempty"`
+	Val  int    `json:"val,omitempty"`
+}
+
+// result: R 0 ok / 1 error(throw) / 2 panic; D = definition id / constant value / cell id, -1 none
+type Res struct {
+	R  int   `json:"r"`
+	D  int   `json:"d"`
+	T0 int64 `json:"t0,omitempty"` // invocation stamp (hist mode)
+	T1 int64 `json:"t1,omitempty"` // return stamp
+	z  *data.ZVal
+}
+
+func newVM() *ort.VM {
+	p := parser.NewParser()
+	vm := ort.NewVM(p).(*ort.VM)
+	vm.SetThrowControl(func(acl data.Control) {})
+	return vm
+}
+
+func srcID(from data.From) int {
+	if from == nil {
+		return -3
+	}
+	s := from.GetSource()
+	var n int
+	if _, err := fmt.Sscanf(s, "d%d.php", &n); err == nil {
+		return n
+	}
+	return -4
+}
+
+func doOp(vm *ort.VM, o Op) (res Res) {
+	res.D = -1
+	defer func() {
+		if r := recover(); r != nil {
+			res.R = 2
+		}
+	}()
+	switch o.Op {
+	case "add":
+		file := fmt.Sprintf("d%d.php", o.File)
+		from := node.NewTokenFrom(&file, 0, 0, 0, 0)
+		var acl data.Control
+		switch o.Kind {
+		case "c":
+			acl = vm.AddClass(node.NewClassStatement(from, o.Name, "", nil, nil, map[string]data.Method{}))
+		case "i":
+			acl = vm.AddInterface(node.NewInterfaceStatement(from, o.Name, nil, nil))
+		default:
+			acl = vm.AddFunc(node.NewFunctionStatement(from, o.Name, nil, nil, nil, nil, false))
+		}
+		if acl != nil {
+			res.R = 1
+		}
+	case "get":
+		switch o.Kind {
+		case "c":
+			if c, ok := vm.GetClass(o.Name); ok {
+				res.D = srcID(c.GetFrom())
+			}
+		case "i":
+			if c, ok := vm.GetInterface(o.Name); ok {
+				res.D = srcID(c.GetFrom())
+			}
+		default:
+			if f, ok := vm.GetFunc(o.Name); ok {
+				if g, ok := f.(node.GetFrom); ok {
+					res.D = srcID(g.GetFrom())
+				} else {
+					res.D = -3
+				}
+			}
+		}
+	case "setconst":
+		if acl := vm.SetConstant(o.Name, data.NewIntValue(o.Val)); acl != nil {
+			res.R = 1
+		}
+	case "getconst":
+		if v, ok := vm.GetConstant(o.Name); ok {
+			if iv, ok := v.(data.AsInt); ok {
+				n, _ := iv.AsInt()
+				res.D = n
+			}
+		}
+	case "global":
+		res.z = vm.EnsureGlobalZVal(o.Name)
+	case "setfile":
+		vm.SetPhpFileCache(o.Name)
+	case "getfile":
+		if vm.GetPhpFileCache(o.Name) {
+			res.D = 1
+		}
+	case "depth":
+		res.D = vm.EnterCall()
+		vm.LeaveCall()
+		res.D = -1
+	case "handler":
+		vm.SetExceptionHandler(data.NewIntValue(o.Val))
+		_ = vm.GetExceptionHandler()
+	default:
+		res.R = 2
+	}
+	return
+}
+
+// ---------------------------------------------------------------- seq: one goroutine, for the sequential tie
+func runSeq() {
+	out := json.NewEncoder(os.Stdout)
+	vrun.Lines(func(line string) {
+		if strings.TrimSpace(line) == "" {
+			return
+		}
+		var c struct {
+			Ops []Op `json:"ops"`
+		}
+		if err := json.Unmarshal([]byte(line), &c); err != nil {
+			out.Encode(map[string]any{"err": err.Error()})
+			return
+		}
+		vm := newVM()
+		cells := map[*data.ZVal]int{}
+		rs := make([]Res, 0, len(c.Ops))
+		for i, o := range c.Ops {
+			r := doOp(vm, o)
+			if r.z != nil {
+				id, ok := cells[r.z]
+				if !ok {
+					id = i
+					cells[r.z] = id
+				}
+				r.D = id
+			}
+			rs = append(rs, r)
+		}
+		out.Encode(map[string]any{"res": rs})
+	})
+}
+
+// ---------------------------------------------------------------- child: one concurrent run in this process
+type Config struct {
+	Threads    [][]Op `json:"threads"`
+	GoMaxProcs int    `json:"gomaxprocs"`
+	Stamps     bool   `json:"stamps"` // record invocation/return stamps (adds atomic operations between calls)
+	Repeat     int    `json:"repeat"` // run the same programs on this many fresh VMs (race hunting)
+}
+
+func runOnce(cfg *Config) [][]Res {
+	vm := newVM()
+	var clock int64
+	n := len(cfg.Threads)
+	res := make([][]Res, n)
+	var ready, done sync.WaitGroup
+	var start int32
+	ready.Add(n)
+	done.Add(n)
+	for t := 0; t < n; t++ {
+		go func(t int) {
+			defer done.Done()
+			ops := cfg.Threads[t]
+			rs := make([]Res, len(ops))
+			ready.Done()
+			for atomic.LoadInt32(&start) == 0 {
+				runtime.Gosched()
+			}
+			for i, o := range ops {
+				if cfg.Stamps {
+					t0 := atomic.AddInt64(&clock, 1)
+					r := doOp(vm, o)
+					r.T0, r.T1 = t0, atomic.AddInt64(&clock, 1)
+					rs[i] = r
+				} else {
+					rs[i] = doOp(vm, o)
+				}
+			}
+			res[t] = rs
+		}(t)
+	}
+	ready.Wait()
+	atomic.StoreInt32(&start, 1)
+	done.Wait()
+	// cell identities: number the distinct *ZVal pointers; the id of a cell is thread*100000+index of the
+	// lexicographically first call that returned it (any injective naming works: the check only compares ids)
+	cells := map[*data.ZVal]int{}
+	for t := range res {
+		for i := range res[t] {
+			if z := res[t][i].z; z != nil {
+				if _, ok := cells[z]; !ok {
+					cells[z] = t*100000 + i
+				}
+				res[t][i].D = cells[z]
+			}
+		}
+	}
+	return res
+}
+
+// child: stdin = a stream of configurations (JSON documents); one result line per configuration.
+// If the process dies (fatal error, race detector with halt_on_error) the parent attributes the death
+// to the first configuration without a result line.
+func runChild() {
+	dec := json.NewDecoder(os.Stdin)
+	out := json.NewEncoder(os.Stdout)
+	for {
+		var cfg Config
+		if err := dec.Decode(&cfg); err != nil {
+			return
+		}
+		if cfg.GoMaxProcs > 0 {
+			runtime.GOMAXPROCS(cfg.GoMaxProcs)
+		}
+		rep := cfg.Repeat
+		if rep < 1 {
+			rep = 1
+		}
+		var last [][]Res
+		for k := 0; k < rep; k++ {
+			last = runOnce(&cfg)
+		}
+		out.Encode(map[string]any{"res": last})
+	}
+}
+
+// ---------------------------------------------------------------- stress: each configuration in a child process
+func runStress() {
+	out := json.NewEncoder(os.Stdout)
+	self, _ := os.Executable()
+	vrun.Lines(func(line string) {
+		if strings.TrimSpace(line) == "" {
+			return
+		}
+		var b struct {
+			Batch []json.RawMessage `json:"batch"`
+		}
+		input := line
+		nb := 1
+		if json.Unmarshal([]byte(line), &b) == nil && len(b.Batch) > 0 {
+			var sb strings.Builder
+			for _, m := range b.Batch {
+				sb.Write(m)
+				sb.WriteByte('\n')
+			}
+			input = sb.String()
+			nb = len(b.Batch)
+		}
+		cmd := exec.Command(self, "child")
+		cmd.Stdin = strings.NewReader(input)
+		var so, se bytes.Buffer
+		cmd.Stdout, cmd.Stderr = &so, &se
+		cmd.Env = append(os.Environ(), "GORACE=halt_on_error=1")
+		timer := time.AfterFunc(300*time.Second, func() { cmd.Process.Kill() })
+		err := cmd.Run()
+		timer.Stop()
+		exit := 0
+		if err != nil {
+			exit = -1
+			if ee, ok := err.(*exec.ExitError); ok {
+				exit = ee.ExitCode()
+			}
+		}
+		stderr := se.String()
+		o := map[string]any{"exit": exit}
+		o["race"] = strings.Contains(stderr, "WARNING: DATA RACE")
+		switch {
+		case strings.Contains(stderr, "concurrent map writes"):
+			o["fatal"] = "concurrent map writes"
+		case strings.Contains(stderr, "concurrent map read and map write"):
+			o["fatal"] = "concurrent map read and map write"
+		case strings.Contains(stderr, "concurrent map iteration and map write"):
+			o["fatal"] = "concurrent map iteration and map write"
+		case strings.Contains(stderr, "fatal error:"):
+			o["fatal"] = "other fatal error"
+		}
+		if exit != 0 {
+			// keep the part of the report that names the functions involved
+			var keep []string
+			for _, l := range strings.Split(stderr, "\n") {
+				if strings.Contains(l, "runtime.(*VM)") || strings.Contains(l, "fatal error") || strings.Contains(l, "DATA RACE") {
+					keep = append(keep, strings.TrimSpace(l))
+				}
+				if len(keep) > 12 {
+					break
+				}
+			}
+			o["report"] = keep
+		}
+		var results []any
+		for _, l := range strings.Split(so.String(), "\n") {
+			var parsed map[string]any
+			if strings.TrimSpace(l) != "" && json.Unmarshal([]byte(l), &parsed) == nil {
+				results = append(results, parsed["res"])
+			}
+		}
+		o["results"] = results // one per completed configuration; the next one (if any) was in flight at death
+		o["n"] = nb
+		out.Encode(o)
+	})
+}
